@@ -1389,6 +1389,13 @@ def make_program(rng, features=None, size=1.0, tries=60, neutral_shadows=False):
                     if f.shadow:
                         f.shadow = [("assert", ("bool", True))]
                 prog.tags.add("neutral-shadows")
+                # definition order is not part of a program's meaning (census cells forward_call, forward_fnvalue_print):
+                # print the functions of the main module in a random order, so that callees also lie behind their callers
+                # (the generator itself only ever calls functions it has already produced).  Restricted to neutral-shadow
+                # programs, where no shadow block runs program code and the order of shadow blocks is immaterial.
+                if sub.random() < 0.6:
+                    sub.shuffle(prog.main.funcs)
+                    prog.tags.add("fn-order-shuffled")
             if prog is not None:
                 prog.files()          # an incomplete construct (None expression) cannot be printed: discard
             exp = evaluate(prog) if prog is not None else None
